@@ -17,6 +17,13 @@ remove(axis=..)) - each on its own copy of the state.  Oracles on every transiti
      group labels currently on that axis
  (f) the state reached functionally equals the state reached by replaying the whole history in place on ONE
      fresh live object (mutating forms, no copies)
+ (g) no aliasing: at every expanded state the object returned by each kind of non-mutating operation (and by
+     copy()/copy.copy()/deepcopy(), and the genotyping outputs) is mutated by every axis-specific mutating operation
+     while the source and the operand must stay bit-identical, and the source is mutated while the earlier result
+     must stay bit-identical (run wherever result and source share array memory)
+ (h) argument forms: adjoin/append/insert/incorp with the operand as matrix object or raw ndarray crossed with
+     every single label keyword override, all overrides together and omitted names - an explicit keyword wins,
+     otherwise the operand's own labels are used
 A transition on which some form violates an oracle is recorded; the successor is taken from a form that
 satisfied the reference (if none did, the successor is pruned and not expanded).  Oracle (f) is applied as long as
 the axis-specific in-place form of every step of the history passed (otherwise it would repeat that violation).
@@ -40,7 +47,10 @@ ID = "C03"
 TECHNIQUE = ("explicit-state breadth-first search over operation histories on real matrix objects (canonical-state "
              "de-duplication), lock-step with a list-of-entities reference model; every abstract operation is run "
              "through all its public forms (axis-specific / axis-generic +-axis / mutating) as a differential oracle")
-RULE = ("state = all observable fields of the object (mat bytes, every label array or None, every group-metadata "
+RULE = ("[+ oracle (g) at every expanded state: mutate the result of each kind of copy-on-manipulation operation / "
+        "copy / genotyping output and require source and operand bit-identical, and vice versa; + at every initial state "
+        "(thorough: also depth-1 states) every operand-taking operation with matrix / ndarray operand x every single "
+        "label keyword override, all overrides, names omitted] state = all observable fields of the object (mat bytes, every label array or None, every group-metadata "
         "array or None, dtypes); transition = one abstract structural operation (select / delete / insert / adjoin / "
         "concat / reorder / sort / explicit-key sort / group / ungroup on one labelled axis, with every valid index "
         "argument in scope: all index lists and permutations for axis length <= 3 and a covering family above, all "
@@ -157,7 +167,7 @@ class Desc:
     def loc_scale(self, ref, operand=False):
         """Location / scale given to a freshly built matrix; operands get different ones than the matrix they are
         joined to (two breeding value matrices over the same traits need not be standardised alike)."""
-        us = [u for u, _ in ref.axes["trait"]]
+        us = [e[0] for e in ref.axes["trait"]]
         loc = numpy.array([10.0 * u + 1.0 + (4.0 if operand else 0.0) for u in us])
         scl = numpy.array([(0.5, 1.0, 2.0)[u % 3] * (4.0 if operand else 1.0) for u in us])
         return loc, scl
@@ -614,7 +624,7 @@ def initial_ref(D, init):
     prof = {p[0]: p for p in profiles(D)}[init["profile"]]
     axes = {}
     for k, n in zip(D.kinds, init["shape"]):
-        axes[k] = tuple((u, 0) for u in range(n))
+        axes[k] = tuple((u, 0, ()) for u in range(n))
     ref = R.Ref(D.phys, axes, prof[1], {k: False for k in D.gkinds}, seed=D.seed, dup=prof[2],
                 maskbits=init.get("maskbits"))
     for k in init["grouped"]:
@@ -819,6 +829,240 @@ def _diff(D, a, b):
 
 
 # ------------------------------------------------------------------------------------------------------------------
+# oracle (g): no aliasing between a result and the objects it was derived from
+def _shares(D, a, b):
+    """Some array of `a` may share memory with the same-named array of `b`."""
+    for f in ("mat",) + D.fields + D.metas:
+        x, y = getattr(a, f, None), getattr(b, f, None)
+        if isinstance(x, numpy.ndarray) and isinstance(y, numpy.ndarray) and numpy.may_share_memory(x, y):
+            return True
+    return False
+
+
+def alias_mutators(D, ref_t, reduced=False):
+    """Axis-specific MUTATING operations that are valid on an object in reference state ref_t: [(method, fn)]."""
+    out = []
+    for k in D.kinds:
+        ops = OPS_BY_KIND[k]
+        if not ops:
+            continue
+        sfx = R.SUFFIX[k]
+        n = ref_t.n(k)
+        if "reorder" in ops:
+            perm = numpy.arange(n, dtype="int64")[::-1].copy()
+            out.append(("reorder" + sfx, lambda t, m="reorder" + sfx, perm=perm: getattr(t, m)(perm)))
+            if ref_t.default_keys(k):
+                m = ("group" if "group" in ops else "sort") + sfx
+                out.append((m, lambda t, m=m: getattr(t, m)()))
+        if reduced:
+            continue
+        if n > 1:
+            out.append(("remove" + sfx, lambda t, m="remove" + sfx: getattr(t, m)(0)))
+        opd = build(D, operand_ref(ref_t, k, "A"), operand=True)
+        out.append(("incorp" + sfx, lambda t, m="incorp" + sfx, opd=opd: getattr(t, m)([0], opd)))
+    return out
+
+
+def alias_check(ctx, D, node, history):
+    """For the object returned by each kind of non-mutating operation (and by copy / deepcopy): apply every mutating
+    operation to the RESULT and require the source and the operand to stay bit-identical; then mutate the SOURCE
+    and require the earlier result to stay bit-identical.  Only run where result and source share array memory."""
+    import copy as _copy
+    ref = node.ref
+    cands = []      # (description, op dict or None, F0 callable(t, o), operand spec, reference state of the result)
+    for k in D.kinds:
+        if not OPS_BY_KIND[k]:
+            continue
+        n = ref.n(k)
+        for op in ({"kind": k, "op": "select", "arg": list(range(n - 1, -1, -1))},
+                   {"kind": k, "op": "delete", "arg": 0},
+                   {"kind": k, "op": "adjoin", "operand": "A"},
+                   {"kind": k, "op": "insert", "arg": [0], "operand": "A"},
+                   {"kind": k, "op": "concat", "operand": "A", "first": "self"}):
+            try:
+                r2 = ref.apply(op)
+            except (ValueError, IndexError):
+                continue
+            cands.append((op, make_forms(D, op, ref)[0], r2))
+    pseudo = [("copy", lambda t, o: t.copy()), ("copy.copy", lambda t, o: _copy.copy(t)),
+              ("deepcopy", lambda t, o: t.deepcopy()), ("copy.deepcopy", lambda t, o: _copy.deepcopy(t))]
+    for name, fn in pseudo:
+        cands.append(({"kind": None, "op": name}, Form(name, D.sig("__copy__" if "deep" not in name else "__deepcopy__"),
+                                                       "", False, fn), ref))
+    for op, F0, r_out in cands:
+        case = {"cls": D.name, "init": node.init, "history": list(history), "op": dict(op, alias=True), "seed": D.seed}
+        kind = op["kind"]
+        operand = build(D, operand_ref(ref, kind, op["operand"]), operand=True) if op.get("operand") else None
+        okey = state_key(D, operand) if operand is not None else None
+        try:
+            out = F0.fn(node.obj, operand)
+        except Exception:
+            continue                      # a failing form is the business of the main transition oracle
+        if not (_shares(D, out, node.obj) or (operand is not None and _shares(D, out, operand))):
+            ctx.count("alias:no-shared-memory")
+            continue
+        ctx.count("alias:shared-memory")
+        ctx.flag(f"alias:{D.name}")
+        # direction 1: mutate the result, the source / operand must not change
+        for mname, mfn in alias_mutators(D, r_out):
+            try:
+                o = F0.fn(node.obj, operand)
+                mfn(o)
+            except Exception:
+                continue
+            ctx.transitions += 2
+            ctx.evaluations += 1
+            bad_src = state_key(D, node.obj) != node.key
+            bad_opd = operand is not None and state_key(D, operand) != okey
+            if bad_src or bad_opd:
+                ctx.violation(D.sig(mname) + ":modifies-shared-arrays-in-place",
+                              f"[{D.name}] {mname}() applied to the matrix returned by {F0.meth}() changed the "
+                              f"{'source matrix' if bad_src else 'operand'} it was derived from "
+                              f"({_diff(D, node.obj, build(D, ref)) if bad_src else 'operand'}): the two objects share "
+                              f"label arrays and the mutating method writes into them in place", case)
+                if bad_src:
+                    node.obj = build(D, ref)
+                if bad_opd:
+                    operand = build(D, operand_ref(ref, kind, op["operand"]), operand=True)
+            else:
+                ctx.traces += 1
+        # direction 2: mutate the source, the earlier result must not change
+        for mname, mfn in alias_mutators(D, ref, reduced=True):
+            try:
+                src = clone(D, node.obj)
+                o = F0.fn(src, operand)
+                ko = state_key(D, o)
+                mfn(src)
+            except Exception:
+                continue
+            ctx.transitions += 2
+            ctx.evaluations += 1
+            if state_key(D, o) != ko:
+                ctx.violation(D.sig(mname) + ":modifies-shared-arrays-in-place",
+                              f"[{D.name}] {mname}() applied to a matrix changed the matrix that {F0.meth}() had returned "
+                              f"from it earlier: the two objects share label arrays and the mutating method writes "
+                              f"into them in place", case)
+            else:
+                ctx.traces += 1
+
+
+# ------------------------------------------------------------------------------------------------------------------
+# argument forms of the operand-taking operations: matrix object / raw ndarray x every subset of label overrides
+def _subsets(fields):
+    fs = list(fields)
+    out = [(f,) for f in fs]
+    if len(fs) > 1:
+        out.append(tuple(fs))
+    if len(fs) > 2:
+        out.append(tuple(fs[:2]))
+    return out
+
+
+NONE_FILL = ("taxa", "vrnt_name")     # documented: filled with None when the operand supplies no such labels
+
+
+def argform_check(ctx, D, node, history):
+    """Documented call forms `op(values, <label keywords>)`: an explicit keyword always wins over the operand's own
+    label array; without it the operand's own labels are used; a raw ndarray operand needs every label array the
+    matrix has (names may be omitted and are then None).  Terminal checks (no successor states)."""
+    ref = node.ref
+    for kind in D.kinds:
+        if not OPS_BY_KIND[kind]:
+            continue
+        present = [f for f in R.KIND_FIELDS[kind] if ref.present.get(f, False)]
+        if not present:
+            continue
+        sfx = R.SUFFIX[kind]
+        axes = D.axes_of(kind)
+        gen_axes = [axes[0], axes[-1] - D.ndim]
+        for opname, which, arg in (("adjoin", "A", None), ("insert", "B", [0])):
+            variants = [("matrix", S, ()) for S in _subsets(present)]
+            if not D.scaled:
+                variants.append(("ndarray", tuple(present), ()))
+                miss = tuple(f for f in present if f in NONE_FILL)
+                if miss:
+                    variants.append(("ndarray", tuple(f for f in present if f not in miss), miss))
+            for vform, S, miss in variants:
+                op = {"kind": kind, "op": opname, "operand": which, "override": list(S)}
+                if arg is not None:
+                    op["arg"] = arg
+                if miss:
+                    op["missing"] = list(miss)
+                try:
+                    ref2 = ref.apply(op)
+                except (ValueError, IndexError):
+                    continue
+                case = {"cls": D.name, "init": node.init, "history": list(history), "seed": D.seed,
+                        "op": dict(op, argform=vform)}
+                O = ref2.axes[kind][: len(R.POOL[kind][which])] if False else None
+                new_ents = [e for e in ref2.axes[kind] if e[2]]
+                kw_proto = {f: label_array(f, [dict(e[2])[f] for e in new_ents]) for f in S}
+                mut = {"adjoin": "append", "insert": "incorp"}[opname]
+                calls = []
+                for base, mutating in ((opname, False), (mut, True)):
+                    pre = (arg,) if arg is not None else ()
+                    calls.append((base + sfx, mutating, lambda t, v, kw, m=base + sfx, pre=pre: getattr(t, m)(*pre, v, **kw)))
+                    for a in gen_axes:
+                        calls.append((base, mutating, lambda t, v, kw, m=base, pre=pre, a=a: getattr(t, m)(*pre, v, axis=a, **kw)))
+                root = {}
+                for meth, mutating, call in calls:
+                    if not hasattr(D.cls, meth):
+                        continue
+                    F = Form(meth, D.sig(meth), "", mutating, None)
+                    operand = build(D, operand_ref(ref, kind, which), operand=True)
+                    okey = state_key(D, operand)
+                    kw = {f: v.copy() for f, v in kw_proto.items()}
+                    if vform == "ndarray":
+                        values = operand.mat
+                        for f in present:
+                            if f not in kw and f not in miss:
+                                kw[f] = getattr(operand, f)
+                    else:
+                        values = operand
+                    target = clone(D, node.obj) if mutating else node.obj
+
+                    def run(call=call, target=target, values=values, kw=kw, mutating=mutating):
+                        r = call(target, values, kw)
+                        out = target if mutating else r
+                        check_ref(D, out, ref2, "", opkind=kind)
+
+                    res = run_guarded(F, run)
+                    ctx.transitions += 1
+                    ctx.evaluations += 1
+                    ctx.count(f"argform:{D.name}:{meth}:{vform}")
+                    if res is None and (state_key(D, operand) != okey or (not mutating and state_key(D, node.obj) != node.key)):
+                        res = (":operand-or-self-mutated", "the call changed its operand or (non-mutating form) the matrix itself")
+                        if state_key(D, node.obj) != node.key:
+                            node.obj = build(D, ref)
+                    is_root = mutating not in root
+                    if res is None:
+                        ctx.traces += 1
+                        if is_root:
+                            root[mutating] = (None, None)
+                        continue
+                    fkind, detail = res
+                    if D.scaled and not F.base.startswith(D.name + ".") and fkind in (":data", ":shape"):
+                        if kind == "taxa":
+                            ctx.count(f"deferred-to-C15:{D.name}.{meth}{fkind}")
+                            if is_root:
+                                root[mutating] = (fkind, None)
+                            continue
+                        sig = f"{D.name}:inherited-{kind}-axis-method{fkind}"
+                    elif fkind.startswith("@"):
+                        sig = fkind[1:]
+                    elif fkind.startswith(":labels:") or fkind.startswith(":label-"):
+                        sig = F.base + ":keyword-override" + fkind
+                    else:
+                        sig = F.base + fkind
+                    if is_root:
+                        root[mutating] = (fkind, sig)
+                    elif root[mutating][0] == fkind and root[mutating][1]:
+                        sig = root[mutating][1]          # the generic form fails exactly as the axis-specific one
+                    ctx.violation(sig, f"[{D.name}.{meth}(values=<{vform}>, overriding {list(S)}"
+                                       f"{', omitting ' + str(list(miss)) if miss else ''})] " + detail, case)
+
+
+# ------------------------------------------------------------------------------------------------------------------
 # genotyping protocols as terminal single operations
 GT_PROTOS = (("DenseMaskedPhasedGenotyping", False), ("DenseMaskedPhasedGenotyping", True),
              ("DenseMaskedUnphasedGenotyping", False), ("DenseMaskedUnphasedGenotyping", True),
@@ -873,6 +1117,33 @@ def genotyping(ctx, D, node, history):
         ctx.count(f"op:{pname}:invert={invert}")
         if ctx.guard(run, case=case, sig_prefix=sig + ":"):
             ctx.traces += 1
+            if len(history) == 0:
+                # oracle (g) for the protocols: their output shares label arrays with the input; mutating the
+                # output must leave the input bit-identical
+                phased = pname == "DenseMaskedPhasedGenotyping"
+                D2 = D if phased else Desc.get("DenseGenotypeMatrix", D.seed)
+                r_out = R.Ref(D2.phys, {k: (R.l_select(ref.axes[k], keep) if k == "vrnt" else ref.axes[k])
+                                        for k in D2.kinds}, ref.present, {k: False for k in D2.gkinds},
+                              seed=ref.seed, dup=ref.dup, maskbits=ref.maskbits)
+                for mname, mfn in alias_mutators(D2, r_out):
+                    if mname.startswith("incorp"):
+                        continue
+                    try:
+                        out = (pcls() if invert is None else pcls(invert=invert)).genotype(node.obj)
+                        if not _shares(D, out, node.obj):
+                            break
+                        mfn(out)
+                    except Exception:
+                        continue
+                    ctx.transitions += 2
+                    ctx.evaluations += 1
+                    if state_key(D, node.obj) != node.key:
+                        ctx.violation(D2.sig(mname) + ":modifies-shared-arrays-in-place",
+                                      f"[{D2.name}] {mname}() applied to the output of {pname}.genotype() changed the "
+                                      f"phased input matrix ({_diff(D, node.obj, build(D, ref))})", dict(case, alias=mname))
+                        node.obj = build(D, ref)
+                    else:
+                        ctx.traces += 1
 
 
 # ------------------------------------------------------------------------------------------------------------------
@@ -893,6 +1164,8 @@ def explore_shard(ctx, D, inits, depth, nmax, part=None, do_live=True, gt=False,
         ctx.state(node.key)
         if gt:
             genotyping(ctx, D, node, h)
+        if depth >= 1 and len(h) <= (1 if ctx.tier == "thorough" else 0):
+            argform_check(ctx, D, node, h)
         r = node.ref
         for k in D.kinds:
             if k != "other" and r.n(k) == 1:
@@ -904,6 +1177,13 @@ def explore_shard(ctx, D, inits, depth, nmax, part=None, do_live=True, gt=False,
         ops, cut = alphabet(D, node.ref, nmax)
         if cut:
             ctx.count("ops-cut-by-axis-length-bound", cut)
+        if state_key(D, node.obj) != node.key:
+            # this node's object was derived by a non-mutating operation and shares arrays with its parent / siblings;
+            # an in-place write through one of THEM (reported there by oracle g) reached it: restore it
+            ctx.count("node-restored-after-aliased-write")
+            node.obj = build(D, node.ref)
+        if part is None or len(h) > 0 or part[0] == 0:
+            alias_check(ctx, D, node, h)
         for i, op in enumerate(ops):
             if part is not None and len(h) == 0 and i % part[1] != part[0]:
                 continue
@@ -1107,6 +1387,12 @@ def finalize(ctx, tier, seed):
         for k in D.gkinds:
             assert f"grouped:{name}:{k}" in ctx.flags and f"ungrouped:{name}:{k}" in ctx.flags, (name, k)
         assert f"profile:{name}:full" in ctx.flags, name
+        if len([k for k in D.kinds if k != "other"]) > 1 and "taxa" not in D.square_kinds:
+            # copy-on-manipulation results of multi-axis classes share the untouched axis' label arrays with their
+            # source: the aliasing oracle (g) must have met that situation
+            assert f"alias:{name}" in ctx.flags, ("aliasing oracle never saw shared memory", name)
+        if D.fields:
+            assert any(k.startswith(f"argform:{name}:") and k.endswith(":matrix") for k in c), ("no keyword-override form", name)
         if D.fields:       # duplicated labels; an absent optional label array; no label arrays at all
             assert f"profile:{name}:dup" in ctx.flags, name
             assert any(f.startswith(f"profile:{name}:no_") for f in ctx.flags), name
@@ -1138,5 +1424,9 @@ def replay(case, ctx):
     op = case["op"]
     if op["op"] == "genotype":
         genotyping(ctx, D, node, tuple(hist))
+    elif op.get("alias"):
+        alias_check(ctx, D, node, tuple(hist))
+    elif "argform" in op:
+        argform_check(ctx, D, node, tuple(hist))
     else:
         step(ctx, D, node, op, tuple(hist), do_live=True)
